@@ -21,16 +21,22 @@ EXPLANATION = (
     "position of the recorded signature (their names are free). A formula that is not literally a documented spelling is read piece by piece "
     "(factor, reduction, axis, keepdims, reduced quantity): a violation needs a piece with positive evidence of a difference (another constant "
     "axis, another reduction, the documented ingredients combined differently, a constant index offset other than one, independent left / right "
-    "edge searches); an unread piece or an unknown building block makes the clause undecided."
+    "edge searches); an unread piece or an unknown building block makes the clause undecided. Order / index worlds: the schedule is read element-wise "
+    "(first and last transition step, a step behind it) per return path in the worlds start <> end x transition count n in {0, 1, 2, > 2} - guard clauses, "
+    "conditional writes, closed forms over arange(total) (where / min / max / clip), optax.linear_schedule over the step indices; a floor or cap around the "
+    "log-probabilities of the cross-entropy is evaluated in the worlds of log p in (-inf, 0] against its constants; a binary-search bin lookup "
+    "(searchsorted / digitize over (bins, x)) is evaluated in every position of x relative to the edges for 2..5 edges (counterexamples only: coinciding "
+    "columns whose last written weight is not 1, non-adjacent columns, a bin that does not contain x); a row count taken from a derived per-sample array is "
+    "read through symbolic shapes under the documented shapes of x and bins."
 )
 TRUSTED = ["jnp.minimum / log_softmax / linspace semantics", "min(e, delta) equals e or delta (case split is exhaustive)"]
 RULES = {
     "R1-huber": "huber_loss(e, d) == 0.5*e^2 where min(e,d) = e and == d*(e - 0.5*d) where min(e,d) = d",
     "R2-cross-entropy": "two_hot_cross_entropy_loss == -sum(two_hot_encoding(bins, target) * log_softmax(logits, -1), -1); two_hot_decoding == sum(p*bins, -1)",
     "R3-avg-l1": "avg_l1_norm(x) == x / maximum(mean(|x|, axis=-1, keepdims=True), eps)",
-    "R4-schedule": "length total_timesteps; schedule == ones(total)*end with [:int(total*fraction)] = linspace(start, end, int(total*fraction))",
+    "R4-schedule": "length total_timesteps; elements: `start` at step 0 (n >= 1), `end` at step n-1 (n >= 2) and at every step >= n, in both orders of start / end, n = int(total*fraction) (slice bound and linspace count both n)",
     "R5-masked-loss": "masked_mse_loss == mean(sq(P - T) * mask[:, None]) with per-sample broadcasting under the documented shapes",
-    "R6-two-hot-weights": "two_hot rows: weight 1-w at the lower index and w at lower+1 (clipped to the last bin), w = (x - bins[lo]) / (bins[up] - bins[lo])",
+    "R6-two-hot-weights": "two_hot rows: weight 1-w at the lower index and w at lower+1 (clipped to the last bin), w = (x - bins[lo]) / (bins[up] - bins[lo]); one row per sample; a binary-search lookup encloses x in every position (exact edges included)",
 }
 
 
@@ -219,13 +225,56 @@ def _r2_cross_entropy(ck, repo, nf):
     inner = [code * x for x in lsm]
     wants = [-_lib(nf2, "sum", inner[0], axis=_c(-1))]
 
+    def clamped(inn):
+        """The summand in the order worlds of the log-probability against the constants it is compared with (min / max / clip around it):
+        log p ranges over (-inf, 0], so every world with log p < 0 is realised by some logits.  -> (True | False | None, witness)"""
+        lsm_atoms = {x.single_atom(): x for x in lsm if x.single_atom() is not None}
+        consts, todo, seen = {Fraction(0)}, list(inn.atoms()), set()
+        while todo:
+            a = todo.pop()
+            m_ = nf2.meta.get(a)
+            if a in seen:
+                continue
+            seen.add(a)
+            if a in lsm_atoms or not m_:
+                continue
+            if m_.get("fn", "").split(".")[-1] in ("minimum", "maximum", "clip", "min", "max") and not m_.get("kws"):
+                for x in m_["args"]:
+                    if x.is_const():
+                        consts.add(x.const_value())
+                    else:
+                        todo.extend(x.atoms())
+        lps = [lsm_atoms[a] for a in seen if a in lsm_atoms]
+        if len(lps) != 1:
+            return None, ""
+        lp = lps[0]
+        cs = sorted(consts)
+        zero = cs.index(Fraction(0))
+        model = OrderModel()
+        # constants in their numeric order, log p <= 0
+        model.cluster([_c(v) for v in cs] + [lp], constraint=lambda r: all(r[i] < r[i + 1] for i in range(len(cs) - 1)) and r[-1] <= r[zero])
+        ok_all = True
+        for w in model.worlds():
+            val, want = model.value(w, nf2, inn), model.resolve(w, code * lp)
+            if val == want:
+                continue
+            if _opaque(val) or not val.atoms() <= (code.atoms() | lp.atoms()):
+                return None, ""
+            if w[0][-1] < w[0][zero]:
+                return False, f"differs where [{model.describe(w)}]: {val.canon()[:80]} instead of {want.canon()[:80]}"
+            ok_all = False
+        return (True, "") if ok_all else (None, "")
+
     def pieces(g):
         r = _read_reduction(nf2, g)
         if r is None:
             return None
         c, red, inn, axis, keep = r
+        sm, wit = _piece(inn, inner, ("softmax",)), ""
+        if sm is None:
+            sm, wit = clamped(inn)
         return {"sign / factor": c == -1, "reduction": red == "sum", "axis": _last_axis(axis, 2), "keepdims": _flag(keep, (None, 0), ()),
-                "summand": _piece(inn, inner, ("softmax",))}
+                "summand" + (f" ({wit})" if wit else ""): sm}
     _decide(ck, "R2-cross-entropy", q, "formula", got, wants, pieces, "must be -sum(two_hot(target) * log_softmax(logits), last axis)", loc(fn._module, fn), ("softmax",))
 
 
@@ -248,6 +297,128 @@ def _r2_decoding(ck, repo, nf):
         c, red, inn, axis, keep = r
         return {"factor": c == 1, "reduction": red == "sum", "axis": _last_axis(axis, 2), "keepdims": _flag(keep, (None, 0), ()), "summand": _piece(inn, inner)}
     _decide(ck, "R2-cross-entropy", q, "decoding", got, wants, pieces, "decoding must be the bin-weighted sum over the last axis", loc(fn._module, fn))
+
+
+# ---- symbolic shapes of array-valued normal forms --------------------------------------------------------------------
+_NEWAXIS = ("None", "jax.numpy.newaxis", "numpy.newaxis")
+_SAME_SHAPE = {"tanh", "exp", "log", "log1p", "sqrt", "abs", "absolute", "square", "negative", "sigmoid", "softplus", "relu", "sign", "floor", "ceil", "round",
+               "asarray", "array", "copy", "astype", "isfinite", "isnan", "logical_not", "nan_to_num", "float32", "int32"}
+_BROADCAST = {"clip", "minimum", "maximum", "where", "select", "Lt", "LtE", "Eq", "NotEq", "logical_and", "logical_or", "fmin", "fmax"}
+
+
+def _bcast(a, b):
+    n = max(len(a), len(b))
+    a, b, out = (1,) * (n - len(a)) + tuple(a), (1,) * (n - len(b)) + tuple(b), []
+    for x, y in zip(a, b):
+        if x == 1 or x == y:
+            out.append(y)
+        elif y == 1:
+            out.append(x)
+        else:
+            return None
+    return tuple(out)
+
+
+def _shape(nf, p: Poly, dims: dict, texts: dict, sym, depth: int = 0):
+    """Shape of an array-valued normal form as a tuple of dimension symbols (1: broadcast axis), () for a scalar, None when a building block
+    is not read.  `dims`: parameter -> documented shape; `texts`: canonical text -> Poly for values that occur as text inside atom names (the
+    index of a subscript, a denominator); `sym`: length Poly -> dimension symbol."""
+    if p is None or p.elems is not None or depth > 14:
+        return None
+    out = ()
+    for mono in p.terms:
+        for a, _k in mono:
+            s_ = _shape_atom(nf, a, dims, texts, sym, depth + 1)
+            out = _bcast(out, s_) if s_ is not None else None
+            if out is None:
+                return None
+    return out
+
+
+def _shape_atom(nf, a: str, dims, texts, sym, depth):
+    if a in dims:
+        return dims[a]
+    if a in texts and texts[a].single_atom() != a:
+        return _shape(nf, texts[a], dims, texts, sym, depth)
+    m = nf.meta.get(a)
+    if not m:
+        return None
+    fn_, args, kws = m.get("fn", "").split(".")[-1], m.get("args", []), m.get("kws", {})
+    sub = lambda x: _shape(nf, x, dims, texts, sym, depth)
+    if _length_operand(nf, Poly.atom(a)) is not None or (fn_ == "attr" and a.endswith((".size", ".ndim"))):
+        return ()                        # a length / a size: an integer
+    if fn_ == "subscript" and len(args) == 1 and a.startswith(args[0].canon() + "[") and a.endswith("]"):
+        bs = sub(args[0])
+        if bs is None:
+            return None
+        out, i = [], 0
+        for part in (t.strip() for t in _top_level_split(a[len(args[0].canon()) + 1:-1], ",")):
+            if part in _NEWAXIS:
+                out.append(1)
+                continue
+            if i >= len(bs):
+                return None
+            if part == ":":
+                out.append(bs[i])
+            elif re.fullmatch(r"-?\d+", part):
+                pass                     # an integer index removes the axis
+            else:
+                # an index array selects along this axis: the axis is replaced by the shape of the index (one index array only)
+                s_ = _shape_atom(nf, part, dims, texts, sym, depth + 1) if (part in texts or part in nf.meta or part in dims) else None
+                if s_ is None or any(isinstance(x, tuple) for x in out):
+                    return None
+                out.append(tuple(s_))
+            i += 1
+        flat = []
+        for x in out:
+            flat.extend(x if isinstance(x, tuple) else [x])
+        return tuple(flat) + tuple(bs[i:])
+    if "at" in m:
+        return sub(m["at"]["base"])      # a functional update has the shape of its base
+    if fn_ in _SAME_SHAPE and len(args) >= 1:
+        return sub(args[0])
+    if fn_ in _BROADCAST and args and not kws:
+        out = ()
+        for x in args:
+            s_ = sub(x)
+            out = _bcast(out, s_) if s_ is not None and out is not None else None
+        return out
+    if fn_ in ("argmin", "argmax", "sum", "mean", "max", "min", "prod", "any", "all") and 1 <= len(args) <= 2 and set(kws) <= {"axis", "keepdims"} and not (len(args) == 2 and "axis" in kws):
+        s_ = sub(args[0])
+        axis = args[1] if len(args) == 2 else kws.get("axis")
+        keep = _flag(kws.get("keepdims"), (1,), (None, 0))
+        if s_ is None or keep is None:
+            return None
+        if axis is None:
+            return (1,) * len(s_) if keep else ()
+        ax = axis.const_value() if axis.is_const() else None
+        if ax is None or ax.denominator != 1 or not -len(s_) <= ax < len(s_):
+            return None
+        ax = int(ax) % len(s_)
+        return s_[:ax] + ((1,) if keep else ()) + s_[ax + 1:]
+    if fn_ == "searchsorted" and len(args) >= 2:
+        return sub(args[1])
+    if fn_ == "arange" and len(args) == 1 and set(kws) <= {"dtype"}:
+        return (sym(args[0]),)
+    if fn_ in ("zeros", "ones", "empty", "full") and args:
+        sh = args[0]
+        return tuple(sym(x) for x in sh.elems) if sh.elems is not None else (sym(sh),)
+    return None
+
+
+def _length_operand(nf, p: Poly):
+    """p == W.shape[k] | len(W) -> (W, k): the array and the axis whose length is taken; else None."""
+    a = p.single_atom()
+    m = nf.meta.get(a or "", {})
+    k = re.search(r"\[(-?\d+)\]$", a or "")
+    if m.get("fn") in ("proj", "subscript") and k and len(m.get("args", [])) == 1:
+        s_ = m["args"][0].single_atom() or ""
+        ms = nf.meta.get(s_, {})
+        if ms.get("fn") == "attr" and s_.endswith(".shape") and len(ms.get("args", [])) == 1:
+            return ms["args"][0], int(k.group(1))
+    if m.get("fn", "").split(".")[-1] == "len" and len(m.get("args", [])) == 1 and not m.get("kws"):
+        return m["args"][0], 0
+    return None
 
 
 # ---- R6 two-hot weights ----------------------------------------------------------------------------------------
@@ -306,6 +477,136 @@ def _r6_two_hot(ck, repo, nf):
             return (raw[0], True) if len(raw) == 1 else (cidx, None)
         return cidx, False
     (sa, ka), (sb, kb) = strip(ca), strip(cb)
+
+    # index worlds of a binary-search lookup: for sorted, strictly increasing edges b[0] < ... < b[L] the library call searchsorted(b, x, side)
+    # is known in every position of x relative to the edges; the two column indices (integer arithmetic, min / max / clip against 0 and the
+    # last index) are evaluated in each position for small L.  A position in which they are not the two ends of a bin that contains x is a
+    # counterexample (positive evidence); without a counterexample nothing is concluded here.
+    blen_atoms = {t.format(b=PB) for t in ("{b}.shape[0]", "len({b})", "{b}.size", "{b}.shape[-1]")}
+
+    def concrete(p_, left, right, L):
+        tot = Fraction(0)
+        for mono, c in p_.terms.items():
+            v = Fraction(c)
+            for a, k_ in mono:
+                m_ = nf.meta.get(a, {})
+                f_, args = m_.get("fn", "").split(".")[-1], m_.get("args", [])
+                if a in blen_atoms:
+                    x_ = Fraction(L + 1)
+                elif f_ == "searchsorted" and len(args) >= 2 and args[0] == BN and args[1] == X and set(m_.get("kws", {})) <= {"side"}:
+                    side = args[2] if len(args) > 2 else m_["kws"].get("side")
+                    side = "'left'" if side is None else side.canon()
+                    if side not in ("'left'", "'right'"):
+                        raise Unknown(a)
+                    x_ = Fraction(left if side == "'left'" else right)
+                elif f_ == "digitize" and len(args) == 2 and args[0] == X and args[1] == BN and set(m_.get("kws", {})) <= {"right"}:
+                    # digitize(x, b) == searchsorted(b, x, side='right'); right=True: side='left' (increasing edges)
+                    r_ = m_.get("kws", {}).get("right")
+                    if r_ is not None and not r_.is_const():
+                        raise Unknown(a)
+                    x_ = Fraction(left if (r_ is not None and r_.const_value() != 0) else right)
+                elif f_ in ("minimum", "maximum", "min", "max") and len(args) == 2 and not m_.get("kws"):
+                    x_ = (min if f_.startswith("min") else max)(concrete(t, left, right, L) for t in args)
+                elif f_ == "clip" and len(args) == 3 and not m_.get("kws"):
+                    x0, x1, x2 = (concrete(t, left, right, L) for t in args)
+                    x_ = min(max(x0, x1), x2)
+                else:
+                    raise Unknown(a)
+                if x_ == 0 and k_ < 0:
+                    raise Unknown(a)
+                v *= x_ ** k_
+            tot += v
+        return tot
+
+    e3 = {**env, "CA": ca, "CB": cb}
+    edge_a, edge_b = (nf.poly(parse_expr(f"{PB}[{i}]"), Scope(None, mi, e3, q), None) for i in ("CA", "CB"))
+    same_edge = Poly.atom("E")
+    quot = {f"({(edge_b - edge_a).canon()})": edge_b - edge_a, f"({(edge_a - edge_b).canon()})": edge_a - edge_b}
+
+    def collapse(p_, depth=0):
+        """Value of a weight where both column indices select the same edge E and x == E; ZeroDivisionError: it divides by the (zero) width."""
+        if depth > 10 or p_.elems is not None:
+            raise Unknown(p_.canon())
+        tot = Poly.const(0)
+        for mono, c in p_.terms.items():
+            term = Poly.const(c)
+            for a, k_ in mono:
+                v = collapse_atom(a, depth + 1)
+                if k_ < 0 and v.is_zero():
+                    raise ZeroDivisionError(a)
+                if k_ < 0 and not v.is_const():
+                    raise Unknown(a)
+                term = term * (v.pow(k_) if k_ > 0 else Poly.const(1 / v.const_value() ** (-k_)))
+            tot = tot + term
+        return tot
+
+    def collapse_atom(a, depth):
+        if a in (PX, edge_a.single_atom(), edge_b.single_atom()):
+            return same_edge
+        if a in quot:
+            return collapse(quot[a], depth)
+        m_ = nf.meta.get(a, {})
+        f_, args = m_.get("fn", "").split(".")[-1], m_.get("args", [])
+        if m_.get("kws"):
+            raise Unknown(a)
+        if f_ in ("where", "select") and len(args) == 3:
+            c_ = nf.meta.get(args[0].single_atom() or "", {})
+            if c_.get("fn") not in ("Lt", "LtE", "Eq", "NotEq") or len(c_.get("args", [])) != 2:
+                raise Unknown(a)
+            d_ = collapse(c_["args"][0], depth) - collapse(c_["args"][1], depth)
+            if not d_.is_const():
+                raise Unknown(a)
+            dv = d_.const_value()
+            return collapse(args[1] if {"Lt": dv < 0, "LtE": dv <= 0, "Eq": dv == 0, "NotEq": dv != 0}[c_["fn"]] else args[2], depth)
+        if f_ in ("minimum", "maximum", "min", "max") and len(args) == 2:
+            x0, x1 = (collapse(t, depth) for t in args)
+            if x0 == x1:
+                return x0
+            if x0.is_const() and x1.is_const():
+                return Poly.const((min if f_.startswith("min") else max)(x0.const_value(), x1.const_value()))
+        raise Unknown(a)
+
+    def index_worlds():
+        bad = {}
+        for L in (1, 2, 3, 4):
+            # (description, searchsorted left, right, admissible lower indices)
+            pos = [(f"x == {PB}[0]", 0, 1, {0}), (f"x == {PB}[{L}] (the highest of {L + 1} edges)", L, L + 1, {L - 1})]
+            pos += [(f"{PB}[{j}] < x < {PB}[{j + 1}] ({L + 1} edges)", j + 1, j + 1, {j}) for j in range(L)]
+            pos += [(f"x == {PB}[{j}] ({L + 1} edges)", j, j + 1, {j - 1, j}) for j in range(1, L)]
+            for txt, le, ri, admissible in pos:
+                i_, u_ = concrete(ca, le, ri, L), concrete(cb, le, ri, L)
+                lo_, up_ = min(i_, u_), max(i_, u_)
+                if i_ == u_:
+                    # one column receives both writes: what stays is the weight written last, evaluated where both edges are the same edge
+                    # E and x == E (a value on that edge is encoded by the single weight 1)
+                    if i_ not in (admissible | {a_ + 1 for a_ in admissible}) or not 0 <= i_ <= L:
+                        bad.setdefault("bracketing-bin", (f"{txt}: both writes go to column {i_}", "the edge written is not an end of the bin that contains the value"))
+                        continue
+                    try:
+                        last = collapse(vb)
+                        if last != _c(1):
+                            bad.setdefault("adjacent-indices", (f"{txt}: both writes go to column {i_}; the weight written last is {last.canon()[:60]} there",
+                                                                "for this value the two indices coincide: the second write overwrites the first and the row does not sum to one"))
+                    except ZeroDivisionError:
+                        bad.setdefault("adjacent-indices", (f"{txt}: both writes go to column {i_}; the weight written last divides by the width 0 of the empty bin",
+                                                            "for this value the two indices coincide and the interpolation weight is 0/0: the row is NaN"))
+                    except Unknown:
+                        unread.append(txt)
+                elif up_ - lo_ != 1:
+                    bad.setdefault("adjacent-indices", (f"{txt}: columns {i_} and {u_}", "the two non-zero entries must be adjacent"))
+                elif lo_ not in admissible or not 0 <= lo_ < up_ <= L:
+                    bad.setdefault("bracketing-bin", (f"{txt}: columns {lo_} and {up_}", "the two edges written must enclose the value (otherwise a weight is negative or the row leaves the array)"))
+        return bad if bad or not unread else None      # a coinciding pair whose last weight is not read: nothing concluded
+    unread = []
+    try:
+        worlds_bad = index_worlds()
+    except Unknown:
+        worlds_bad = None        # not a binary-search lookup over (bins, x): the edge search is not decided
+    if worlds_bad:
+        for key_, (shown_, why_) in sorted(worlds_bad.items()):
+            ck.ob("R6-two-hot-weights", q, key_, False, shown_, why_, loc(mi, nb.ast), witness=[shown_])
+    elif worlds_bad is not None:
+        ck.ob("R6-two-hot-weights", q, "bracketing-bin", True, f"binary-search lookup: lower idx {ca.canon()[:80]}, upper idx {cb.canon()[:80]} enclose x in every position for 2..5 edges", "", loc(mi, nb.ast))
     # adjacency: the two column indices differ by the constant one (an index may be clipped to the last bin; for values inside the bin
     # range the clip never binds)
     k, as_written = None, False
@@ -334,25 +635,44 @@ def _r6_two_hot(ck, repo, nf):
                   "they cannot be adjacent for every x (adjacent off the edges means the same column on an edge: the second write overwrites the first)", where2, witness=[f"x == {PB}[j]: searchsorted(side='right') == searchsorted(side='left') + 1"])
             return
         raise AnalysisError(f"{q}: the two column indices `{ca.canon()[:70]}` / `{cb.canon()[:70]}` are not related by a constant offset (unrecognised form)")
-    if None in (ka, kb) and not as_written:
+    if None in (ka, kb) and not as_written and not (worlds_bad is not None and not worlds_bad):
         raise AnalysisError(f"{q}: clipping bound of a column index `{ca.canon()[:70]}` / `{cb.canon()[:70]}` not read (unrecognised form)")
     if k < 0:
         (na, ra, ca, va), (nb, rb, cb, vb), k = (nb, rb, cb, vb), (na, ra, ca, va), -k
     # from here: a = lower edge, b = upper edge
     ok = k == 1
-    ck.ob("R6-two-hot-weights", q, "adjacent-indices", ok, f"lower idx = {ca.canon()[:60]}, upper idx = {cb.canon()[:80]}", "" if ok else f"the upper index must be lower+1 (adjacent non-zero entries), the two indices differ by {k}", where2)
-    rows = [nf.poly(parse_expr(t.format(x=PX)), spec, None) for t in ("{x}.shape[0]", "len({x})", "{x}.size", "{x}.shape[-1]")]
-    rows = [_lib(nf, "arange", r_) for r_ in rows]
-    vr = [_piece(r_, rows, (PB,)) for r_ in (ra, rb)]
-    if None in vr:
-        raise AnalysisError(f"{q}: row indices `{ra.canon()[:60]}` / `{rb.canon()[:60]}` of the two writes (unrecognised form)")
-    ok = all(vr)
-    ck.ob("R6-two-hot-weights", q, "one-row-per-sample", ok, f"rows {ra.canon()} / {rb.canon()}", "" if ok else "each sample writes into its own row", loc(mi, na.ast))
+    if not (worlds_bad and "adjacent-indices" in worlds_bad):
+        ck.ob("R6-two-hot-weights", q, "adjacent-indices", ok, f"lower idx = {ca.canon()[:60]}, upper idx = {cb.canon()[:80]}", "" if ok else f"the upper index must be lower+1 (adjacent non-zero entries), the two indices differ by {k}", where2)
     # weights: with D = bins[up] - bins[lo] the documented upper weight is (x - bins[lo]) / D; comparisons are made after multiplying by D
     e2 = {**env, "LO": ca, "UP": cb}
     lo_edge, up_edge = (nf.poly(parse_expr(f"{PB}[{i}]"), Scope(None, mi, e2, q), None) for i in ("LO", "UP"))
     D = up_edge - lo_edge
     want_w = (X - lo_edge) * D.inv()
+
+    # rows: one per sample.  The number of samples may be taken from x or from any per-sample array derived from it (a length W.shape[0] /
+    # len(W) is read through the symbolic shape of W under the documented shapes x: (n_samples,), bins: (n_bin_edges,))
+    xlens = [nf.poly(parse_expr(t.format(x=PX)), spec, None) for t in ("{x}.shape[0]", "len({x})", "{x}.size", "{x}.shape[-1]")]
+    blens = [nf.poly(parse_expr(t.format(x=PB)), spec, None) for t in ("{x}.shape[0]", "len({x})", "{x}.size", "{x}.shape[-1]")]
+    rows = [_lib(nf, "arange", r_) for r_ in xlens]
+    texts = {f"({D.canon()})": D, f"({(-D).canon()})": D, ca.canon(): ca, cb.canon(): cb}
+
+    def sym(length):
+        return "N" if length in xlens else "B" if length in blens else length.canon()
+
+    def row_norm(r_):
+        m_ = nf.meta.get(r_.single_atom() or "", {})
+        if m_.get("fn", "").split(".")[-1] != "arange" or len(m_.get("args", [])) != 1 or not set(m_.get("kws", {})) <= {"dtype"}:
+            return r_
+        w_ = _length_operand(nf, m_["args"][0])
+        sh = _shape(nf, w_[0], {PX: ("N",), PB: ("B",)}, texts, sym) if w_ is not None else None
+        d_ = sh[w_[1]] if sh and -len(sh) <= w_[1] < len(sh) else None
+        return rows[0] if d_ == "N" else _lib(nf, "arange", blens[0]) if d_ == "B" else r_
+    ra, rb = row_norm(ra), row_norm(rb)
+    vr = [_piece(r_, rows, (PB,)) for r_ in (ra, rb)]
+    if None in vr:
+        raise AnalysisError(f"{q}: row indices `{ra.canon()[:60]}` / `{rb.canon()[:60]}` of the two writes (unrecognised form)")
+    ok = all(vr)
+    ck.ob("R6-two-hot-weights", q, "one-row-per-sample", ok, f"rows {ra.canon()[:100]} / {rb.canon()[:100]}", "" if ok else "each sample writes into its own row", loc(mi, na.ast))
 
     def times_d(p):
         """p * D with the quotient atoms (D)^-1 / (-D)^-1 cancelled"""
@@ -364,6 +684,13 @@ def _r6_two_hot(ck, repo, nf):
         """the weight is written with x and the two selected bin edges alone (the index expressions inside the edges are abstracted)"""
         txt = p.canon().replace(up_edge.canon(), "UPPER").replace(lo_edge.canon(), "LOWER")
         return not _opaque(p) and set(re.findall(r"[A-Za-z_][A-Za-z_0-9]*", txt)) <= {PX, "UPPER", "LOWER"}
+    if worlds_bad is not None and not worlds_bad and k == 1:
+        # the binary-search lookup selects two different, adjacent edges in every position: the width D of the bin is positive, and guards
+        # against an empty bin (where(D > 0, ., .), maximum(D, 0) ...) are resolved in that one world
+        wm = OrderModel()
+        wm.cluster([_c(0), D], constraint=lambda r: r[0] < r[1])
+        for w0 in wm.worlds():
+            va, vb = wm.value(w0, nf, va), wm.value(w0, nf, vb)
     tot = va + vb
     ok = tot == _c(1) or times_d(tot) == D
     if not ok and not only_edges(tot):
@@ -442,19 +769,45 @@ def _top_level_split(txt: str, sep: str):
     return parts + [cur]
 
 
+class _Order(OrderModel):
+    """Order model whose sign lookup first divides a difference by the atoms that are declared positive (a common positive factor or
+    denominator does not change a sign): sign(j*(end - start)/k) == sign(end - start) for j, k > 0."""
+
+    def sign(self, world, d: Poly, _depth: int = 0) -> int:
+        d = self.resolve(world, d)
+        if d.terms and not d.is_const():
+            for a in sorted(self.pos_atoms & d.atoms()):
+                lo = min(dict(mono).get(a, 0) for mono in d.terms)
+                if lo:
+                    d = d * Poly({((a, -lo),): Fraction(1)})
+            if d.terms and all(a in self.pos_atoms for mono in d.terms for a, _k in mono) and len({c > 0 for c in d.terms.values()}) == 1:
+                return 1 if next(iter(d.terms.values())) > 0 else -1       # a sum of products of positive quantities, all of one sign
+        return super().sign(world, d, _depth)
+
+
+_K, _J = "k__last", "j__after"     # index of the last transition step (n - 1); distance (>= 1) of an index after the transition from it
+
+
 def _r4_schedule(ck, repo, nf):
     q = "rl_blox.blox.schedules.linear_schedule"
     fn = repo.func(q)
     mi = fn._module
-    env = _env(repo, nf, fn)
-    gotp = _ret(nf, q, env)
+    env0 = _env(repo, nf, fn)
     PT, PS, PEN, PF = _roles(fn, q, 4)       # total_timesteps, start, end, fraction: by position
-    TT, ST, EN, FR = (env[x] for x in (PT, PS, PEN, PF))
+    TT, ST, EN = (env0[x] for x in (PT, PS, PEN))
+    idents0 = set(re.findall(r"[A-Za-z_][A-Za-z_0-9]*", nf.poly(parse_expr(f"int({PT} * {PF})"), Scope(None, mi, env0, q), None).canon()))
+    # the transition count n = int(total * fraction) is given a name of its own: fraction := (k + 1) / total, so that n == k + 1 and the index of
+    # the last transition step is the atom k (closed forms divide by n - 1)
+    K, J = Poly.atom(_K), Poly.atom(_J)
+    env = dict(env0)
+    named = env0[PF].single_atom() == PF and TT.single_atom() == PT
+    if named:
+        env[PF] = (K + _c(1)) * TT.inv()
     n_want = nf.poly(parse_expr(f"int({PT} * {PF})"), Scope(None, mi, env, q), None)
-    facts = {"lengths": [], "counts": []}
+    facts = {"lengths": [], "counts": [], "indexed": False}
 
-    def mk(fn_, a, b):
-        return nf._mkcall(fn_, [a, b], {})
+    def mk(fn_, *a):
+        return nf._mkcall(fn_, list(a), {})
 
     def elem(p, kind):
         """Element of an array-valued normal form at the first / last index of the transition or at an index after it."""
@@ -469,8 +822,17 @@ def _r4_schedule(ck, repo, nf):
     def elem_atom(a, kind):
         m = nf.meta.get(a)
         if m is None:
-            if a in env:
+            if a in env or a in (_K, _J):
                 return Poly.atom(a)      # scalar parameter
+            if a.startswith("(") and a.endswith(")"):
+                # the atom of a quotient: 1 / (sum of terms); its terms are read like any other value
+                try:
+                    inner = nf.poly(parse_expr(a), Scope(None, mi, {**env, _K: K, _J: J}, q), None)
+                except Exception:
+                    raise Unknown(a)
+                if inner.canon() == a[1:-1]:
+                    e_ = elem(inner, kind)
+                    return e_ if len(e_.terms) == 1 else Poly.atom(f"({e_.canon()})", e_.deps, e_.gdeps)
             raise Unknown(a)
         fn_ = m.get("fn", "").split(".")[-1]
         args = m.get("args", [])
@@ -490,48 +852,131 @@ def _r4_schedule(ck, repo, nf):
         if fn_ == "full" and shape is not None and fill is not None:
             facts["lengths"].append(shape)
             return fill
+        if fn_ == "arange" and len(args) == 1 and set(kws) <= {"dtype"} and named:
+            # the step index itself (closed-form schedules): 0, n - 1, and an index n - 1 + j (j >= 1) behind the transition
+            facts["lengths"].append(args[0])
+            facts["indexed"] = True
+            return Poly.const(0) if kind == "first" else K if kind == "last" else K + J
+        # a library schedule applied to the step indices (directly or through vmap): optax.linear_schedule(init_value, end_value,
+        # transition_steps) is init + (end - init) * clip(count / transition_steps, 0, 1), and the constant init_value when transition_steps <= 0
+        f_txt = m.get("fn", "")
+        sched = nf.meta.get(f_txt[5:-1] if f_txt.startswith("vmap(") and f_txt.endswith(")") else f_txt)
+        if sched is not None and sched is not m and sched.get("fn", "").split(".")[-1] == "linear_schedule" and len(args) == 1 and not kws:
+            bound = dict(zip(("init_value", "end_value", "transition_steps", "transition_begin"), sched.get("args", [])))
+            if set(bound) & set(sched.get("kws", {})) or not set(sched.get("kws", {})) <= {"init_value", "end_value", "transition_steps", "transition_begin"}:
+                raise Unknown(a)
+            bound.update(sched.get("kws", {}))
+            begin = bound.get("transition_begin", Poly.const(0))
+            if not {"init_value", "end_value", "transition_steps"} <= set(bound) or not (begin.is_const() and begin.const_value() == 0):
+                raise Unknown(a)
+            i0, e0, st0 = (elem(bound[x], kind) for x in ("init_value", "end_value", "transition_steps"))
+            count = elem(args[0], kind)
+            if len(st0.terms) != 1:
+                raise Unknown(a)         # a quotient by a sum is not placed in the order model
+            ramp = i0 + (e0 - i0) * mk("clip", count * st0.inv(), Poly.const(0), Poly.const(1))
+            pos_name = f"Lt(0, {st0.canon()})"
+            nf.meta.setdefault(pos_name, {"deps": st0.deps, "gdeps": frozenset(), "fn": "Lt", "args": [Poly.const(0), st0], "kws": {}})
+            return mk("where", Poly.atom(pos_name, st0.deps), ramp, i0)
         ep = m.get("kws", {}).get("endpoint")
         if fn_ == "linspace" and len(args) >= 3 and kind in ("first", "last") and (ep is None or (ep.is_const() and ep.const_value() == 1)):
             facts["counts"].append(args[2].canon())
             return args[0] if kind == "first" else args[1]
         if fn_ == "clip" and len(args) == 3 and not m.get("kws"):
             return mk("minimum", mk("maximum", elem(args[0], kind), elem(args[1], kind)), elem(args[2], kind))
-        if fn_ in ("minimum", "maximum") and len(args) == 2:
+        if fn_ in ("minimum", "maximum", "min", "max") and len(args) == 2 and not kws:
             return mk(fn_, elem(args[0], kind), elem(args[1], kind))
+        if fn_ in ("where", "select") and len(args) == 3 and not kws:
+            return mk("where", *(elem(x, kind) for x in args))
+        if fn_ in ("Lt", "LtE", "Eq", "NotEq") and len(args) == 2 and m.get("fn") == fn_:
+            x, y = (elem(t, kind) for t in args)
+            name = f"{fn_}({x.canon()}, {y.canon()})"
+            nf.meta.setdefault(name, {"deps": x.deps | y.deps, "gdeps": frozenset(), "fn": fn_, "args": [x, y], "kws": {}})
+            return Poly.atom(name, x.deps | y.deps)
         raise Unknown(a)
 
-    model = OrderModel()
-    model.cluster([ST, EN])
-    viol, okk = {}, set()
+    # the value(s) returned: one return statement, or one per path (guard clauses, conditional writes)
+    class _One:
+        conds, ret = [], None
+    gotp = None
     try:
-        for w in model.worlds():
-            for kind, want, why in (("tail", EN, "after the transition the schedule must hold `end`"), ("first", ST, "the schedule must begin at `start`"), ("last", EN, "the transition must arrive at `end`")):
-                val = model.value(w, nf, elem(gotp, kind))
+        gotp = nf.return_poly(q, env)
+    except ValueError:
+        pass
+    if gotp is not None and not _opaque(gotp):
+        one = _One()
+        one.ret = gotp
+        summaries = [one]
+    else:
+        from ..sem import summarise_paths
+        try:
+            summaries = [sm for sm in summarise_paths(nf, nf.cfg_of(fn), mi, q, env, {}) if sm.ret is not None]
+        except (RuntimeError, ValueError) as e:
+            raise AnalysisError(f"{q}: paths not enumerated: {e} (unrecognised form)")
+        if not summaries or any(_opaque(sm.ret) for sm in summaries):
+            raise AnalysisError(f"{q}: returned value(s) {[sm.ret.canon()[:60] for sm in summaries]} (unrecognised form)")
+    shown = " | ".join(sorted({sm.ret.canon()[:120] for sm in summaries}))
+
+    # worlds: both orders of {start, end}; the integer n = k + 1 in {0, 1, 2, > 2}; an index behind the transition at distance j = 1 or j > 1
+    model = _Order()
+    model.cluster([ST, EN])
+    ck_ = model.cluster([_c(-1), _c(0), _c(1), K], constraint=lambda r: r[0] < r[1] < r[2] and (r[3] in r[:3] or r[3] > r[2]))
+    model.cluster([_c(1), J], constraint=lambda r: r[0] <= r[1])
+    model.positive(_K)      # symbolic only in the worlds k > 1 (elsewhere the world replaces it by its constant)
+    model.positive(_J)
+    from ..sem import eval_order_formula
+    why = {"tail": "after the transition the schedule must hold `end`", "first": "the schedule must begin at `start` (whenever the transition spans at least one step)",
+           "last": "the transition must arrive at `end`"}
+    viol, unknown, okk = {}, {}, set()
+    for w in model.worlds():
+        rk = w[ck_]
+        n_steps = 0 if rk[3] == rk[0] else 1 if rk[3] == rk[1] else 2       # 2: two or more
+        try:
+            active = [sm for sm in summaries if all(eval_order_formula(model, w, f) for f in sm.conds)]
+        except Unknown as u:
+            raise AnalysisError(f"{q}: branch condition over `{str(u)[:60]}` not placed in the order model [{model.describe(w)}] (unrecognised form)")
+        if len(active) != 1:
+            raise AnalysisError(f"{q}: {len(active)} paths enabled in the world [{model.describe(w)}] (unrecognised form)")
+        for kind, want in (("tail", EN), ("first", ST), ("last", EN)):
+            if (kind == "first" and n_steps < 1) or (kind == "last" and n_steps < 2):
+                continue     # no transition step / the only transition step is the first one
+            try:
+                val = model.value(w, nf, elem(active[0].ret, kind))
                 if model.resolve(w, val) == model.resolve(w, want):
                     okk.add(kind)
                     continue
-                if not (val.atoms() <= {PS, PEN}):
-                    raise Unknown(val.canon())
-                # a polynomial in start / end alone that is not the documented element: a different schedule
-                viol.setdefault(kind, (f"element ({kind}) = {val.canon()} in the world [{model.describe(w)}]", why))
-    except Unknown as u:
-        raise AnalysisError(f"{q}: element-wise reading of `{gotp.canon()[:100]}` stops at `{str(u)[:60]}` (unrecognised form)")
+                if val.atoms() <= {PS, PEN}:
+                    differs = True     # a polynomial in start / end alone that is not the documented element: a different schedule
+                else:
+                    differs = model.sign(w, val - want) != 0      # a definite sign of the difference in this world
+                if not differs:
+                    okk.add(kind)
+                    continue
+                viol.setdefault(kind, (f"element ({kind}) = {val.canon()} in the world [{model.describe(w)}]", why[kind]))
+            except Unknown as u:
+                unknown.setdefault(kind, f"{str(u)[:60]} [{model.describe(w)}]")
     for kind in ("tail", "first", "last"):
         v = viol.get(kind)
-        ck.ob("R4-schedule", q, f"element:{kind}", v is None, f"return {gotp.canon()[:120]}" if v is None else v[0], "" if v is None else v[1], loc(mi, fn))
+        if v is None and (kind in unknown or kind not in okk):
+            continue
+        ck.ob("R4-schedule", q, f"element:{kind}", v is None, f"return {shown[:160]}" if v is None else v[0], "" if v is None else v[1], loc(mi, fn))
+    und = [k for k in ("tail", "first", "last") if k not in viol and (k in unknown or k not in okk)]
+    if und:
+        raise AnalysisError(f"{q}: element-wise reading of `{shown[:100]}` stops at `{unknown.get(und[0], und[0])}` (unrecognised form)")
     # array length(s): total_timesteps (a scalar or a one-element shape); another expression in total_timesteps alone is a different length
     lens = facts["lengths"]
     if not lens:
-        raise AnalysisError(f"{q}: no array constructor with a length read in `{gotp.canon()[:100]}` (unrecognised form)")
+        raise AnalysisError(f"{q}: no array constructor with a length read in `{shown[:100]}` (unrecognised form)")
     okl = all(x == TT or (x.elems is not None and len(x.elems) == 1 and x.elems[0] == TT) for x in lens)
     if not okl and any(_opaque(x) or not same_ingredients(x, TT) for x in lens):
         raise AnalysisError(f"{q}: array length(s) {sorted({x.canon()[:60] for x in lens})} (unrecognised form)")
     ck.ob("R4-schedule", q, "length", okl, f"array length(s) {sorted({x.canon() for x in lens})}", "" if okl else "the schedule must have total_timesteps entries", loc(mi, fn))
     cnts = sorted(set(facts["counts"]))
     if not cnts:
-        raise AnalysisError(f"{q}: no transition (prefix slice / linspace count) read in `{gotp.canon()[:100]}` (unrecognised form)")
+        if facts["indexed"]:
+            return      # a closed form over the step index: the transition count is part of the element values read above
+        raise AnalysisError(f"{q}: no transition (prefix slice / linspace count) read in `{shown[:100]}` (unrecognised form)")
     okc = cnts == [n_want.canon()]
-    allowed = set(re.findall(r"[A-Za-z_][A-Za-z_0-9]*", n_want.canon())) | {"int"}
+    allowed = idents0 | {"int", _K}
     if not okc and any("φ(" in t or "⟦" in t or _TMP.search(t) or not set(re.findall(r"[A-Za-z_][A-Za-z_0-9]*", t)) <= allowed for t in cnts):
         raise AnalysisError(f"{q}: transition count(s) {[t[:60] for t in cnts]} (unrecognised form)")
     ck.ob("R4-schedule", q, "transition-steps", okc, f"transition count(s) {cnts}", "" if okc else "the transition spans exactly int(total_timesteps * fraction) steps (slice and linspace count agree)", loc(mi, fn))
@@ -577,6 +1022,7 @@ def _r5_broadcast(ck, repo, nf):
 
 
 _L, _P, _N, _S = "rl_blox/blox/losses.py", "rl_blox/blox/preprocessing.py", "rl_blox/blox/function_approximator/norm.py", "rl_blox/blox/schedules.py"
+_SCHED_BODY = "    schedule = jnp.ones(total_timesteps) * end  # Default value after decay\n\n    schedule = schedule.at[:transition_steps].set(\n        jnp.linspace(start, end, transition_steps)\n    )\n\n    return schedule\n"
 MUTANTS = [
     {"id": "c18-schedule-clipped", "file": _S, "rule": "R4", "find": "    return schedule\n", "replace": "    return jnp.clip(schedule, end, start)\n"},
     {"id": "c18-schedule-count-off", "file": _S, "rule": "R4", "find": "        jnp.linspace(start, end, transition_steps)", "replace": "        jnp.linspace(start, end, transition_steps + 1)[:-1]", "accept_error": True},
@@ -615,6 +1061,30 @@ MUTANTS = [
     {"id": "c18-masked-sum-reduction", "file": _L, "rule": "R5", "find": "    return jnp.mean(\n        optax.squared_error", "replace": "    return jnp.sum(\n        optax.squared_error"},
     {"id": "c18-schedule-one-more-step", "file": _S, "rule": "R4", "find": "    transition_steps = int(\n        total_timesteps * fraction\n    )", "replace": "    transition_steps = int(total_timesteps * fraction) + 1"},
     {"id": "c18-schedule-renamed-reversed", "file": _S, "rule": "R4", "edits": [("    start: float = 1.0,\n    end: float = 0.1,\n", "    initial: float = 1.0,\n    final: float = 0.1,\n"), ("    schedule = jnp.ones(total_timesteps) * end", "    schedule = jnp.ones(total_timesteps) * final"), ("        jnp.linspace(start, end, transition_steps)", "        jnp.linspace(final, initial, transition_steps)")]},
+    # R4: guard clauses / conditional writes are read per path in the worlds n = 0, 1, 2, > 2 of the transition count; closed forms over the step index
+    {"id": "c18-schedule-empty-transition-start", "file": _S, "rule": "R4", "find": "    schedule = jnp.ones(total_timesteps) * end  # Default value after decay\n",
+     "replace": "    schedule = jnp.ones(total_timesteps) * end  # Default value after decay\n    if transition_steps < 1:\n        return jnp.full(total_timesteps, start)\n"},
+    {"id": "c18-schedule-closed-form-minimum", "file": _S, "rule": "R4", "find": _SCHED_BODY,
+     "replace": "    idx = jnp.arange(total_timesteps)\n    ramp = start + idx * (end - start) / max(transition_steps - 1, 1)\n    return jnp.minimum(ramp, end)\n"},
+    {"id": "c18-schedule-closed-form-progress", "file": _S, "rule": "R4", "find": _SCHED_BODY,
+     "replace": "    progress = jnp.clip(jnp.arange(total_timesteps) / max(transition_steps - 1, 1), 0.0, 1.0)\n    return start + (end - start) * progress\n"},
+    {"id": "c18-schedule-closed-form-one-late", "file": _S, "rule": "R4", "find": _SCHED_BODY,
+     "replace": "    idx = jnp.arange(total_timesteps)\n    ramp = start + idx * (end - start) / max(transition_steps - 1, 1)\n    return jnp.where(idx <= transition_steps, ramp, end)\n"},
+    {"id": "c18-schedule-closed-form-slope", "file": _S, "rule": "R4", "find": _SCHED_BODY,
+     "replace": "    idx = jnp.arange(total_timesteps)\n    ramp = start + idx * (end - start) / max(transition_steps, 1)\n    return jnp.where(idx < transition_steps, ramp, end)\n"},
+    # R6: the number of rows taken from a per-bin axis (symbolic shapes)
+    {"id": "c18-twohot-rows-bin-axis", "file": _P, "rule": "R6", "edits": [("two_hot.at[jnp.arange(x.shape[0]), ind_lo]", "two_hot.at[jnp.arange(diff.shape[1]), ind_lo]"), ("two_hot.at[jnp.arange(x.shape[0]), ind_up]", "two_hot.at[jnp.arange(diff.shape[1]), ind_up]")]},
+    # R2: a floor / cap under the log-probabilities (order worlds of log p in (-inf, 0] against the constants it is compared with)
+    {"id": "c18-ce-logprob-floor", "file": _P, "rule": "R2", "find": "    target = two_hot_encoding(bins, target)\n    return -jnp.sum(target * log_pred, axis=-1)", "replace": "    target = two_hot_encoding(bins, target)\n    return -jnp.sum(target * jnp.maximum(log_pred, -50.0), axis=-1)"},
+    {"id": "c18-ce-logprob-clip", "file": _P, "rule": "R2", "find": "    log_pred = jax.nn.log_softmax(logits, axis=-1)", "replace": "    log_pred = jnp.clip(jax.nn.log_softmax(logits, axis=-1), -20.0, 0.0)"},
+    # R6: binary-search lookups evaluated in every position of x relative to the edges (index worlds)
+    {"id": "c18-twohot-bisect-right-top-edge", "file": _P, "rule": "R6", "find": "    ind_lo = jnp.argmin(diff, 1, keepdims=False)\n", "replace": "    ind_lo = jnp.minimum(jnp.searchsorted(bins, x, side=\"right\") - 1, bins.shape[0] - 1)\n"},
+    {"id": "c18-twohot-bisect-left-wrong-bin", "file": _P, "rule": "R6", "find": "    ind_lo = jnp.argmin(diff, 1, keepdims=False)\n", "replace": "    ind_lo = jnp.clip(jnp.searchsorted(bins, x), 0, bins.shape[0] - 2)\n"},
+    {"id": "c18-twohot-bisect-guarded-zero-row", "file": _P, "rule": "R6", "edits": [("    ind_lo = jnp.argmin(diff, 1, keepdims=False)\n", "    ind_lo = jnp.clip(jnp.searchsorted(bins, x, side=\"right\") - 1, 0, len(bins) - 1)\n"),
+        ("    weight = (x - lower) / (upper - lower)\n", "    gap = upper - lower\n    weight = jnp.where(gap > 0, (x - lower) / jnp.where(gap > 0, gap, 1.0), 0.0)\n")]},
+    # R4: a library schedule over the step indices: with transition_steps <= 0 optax returns the constant init_value
+    {"id": "c18-schedule-optax-short-transition", "file": _S, "rule": "R4", "edits": [("import jax.numpy as jnp\n", "import jax.numpy as jnp\nimport optax\n"),
+        (_SCHED_BODY, "    ramp = optax.linear_schedule(start, end, transition_steps - 1)\n    return ramp(jnp.arange(total_timesteps))\n")]},
 ]
 BENIGN = [
     {"id": "c18-b-schedule-full", "file": _S, "find": "    schedule = jnp.ones(total_timesteps) * end", "replace": "    schedule = jnp.full(total_timesteps, end)"},
@@ -646,4 +1116,26 @@ BENIGN = [
         ("    transition_steps = int(\n        total_timesteps * fraction\n    )  # Number of steps for decay\n    schedule = jnp.ones(total_timesteps) * end  # Default value after decay\n\n    schedule = schedule.at[:transition_steps].set(\n        jnp.linspace(start, end, transition_steps)\n    )\n", "    k = int(fraction * n_steps)\n    schedule = jnp.ones(n_steps) * end\n    schedule = schedule.at[:k].set(jnp.linspace(start, end, num=k))\n")]},
     {"id": "c18-b-schedule-kwonly-slice", "file": _S, "edits": [("    total_timesteps: int,\n    start: float = 1.0,", "    total_timesteps: int,\n    *,\n    start: float = 1.0,"), ("    schedule = jnp.ones(total_timesteps) * end", "    schedule = jnp.ones((total_timesteps,)) * end"), ("schedule.at[:transition_steps]", "schedule.at[0:transition_steps]"),
         ("jnp.linspace(start, end, transition_steps)", "jnp.linspace(start, end, transition_steps, endpoint=True)")]},
+    # R4: the empty transition handled by a guard clause / a conditional write; the closed form that is the same schedule
+    {"id": "c18-b-schedule-guard-clause", "file": _S, "find": _SCHED_BODY,
+     "replace": "    tail = jnp.full(total_timesteps, end)\n    if not transition_steps:\n        return tail\n    return tail.at[:transition_steps].set(jnp.linspace(start, end, transition_steps))\n"},
+    {"id": "c18-b-schedule-conditional-write", "file": _S, "find": _SCHED_BODY,
+     "replace": "    schedule = jnp.ones(total_timesteps) * end\n    if transition_steps >= 1:\n        schedule = schedule.at[:transition_steps].set(jnp.linspace(start, end, transition_steps))\n    return schedule\n"},
+    {"id": "c18-b-schedule-closed-form-where", "file": _S, "find": _SCHED_BODY,
+     "replace": "    idx = jnp.arange(total_timesteps)\n    ramp = start + idx * (end - start) / max(transition_steps - 1, 1)\n    return jnp.where(idx < transition_steps, ramp, end)\n"},
+    # R6: the number of samples taken from a per-sample array derived from x
+    {"id": "c18-b-twohot-rows-from-weight", "file": _P, "edits": [("two_hot.at[jnp.arange(x.shape[0]), ind_lo]", "two_hot.at[jnp.arange(weight.shape[0]), ind_lo]"), ("two_hot.at[jnp.arange(x.shape[0]), ind_up]", "two_hot.at[jnp.arange(len(ind_up)), ind_up]")]},
+    {"id": "c18-b-twohot-rows-from-diff", "file": _P, "edits": [("two_hot.at[jnp.arange(x.shape[0]), ind_lo]", "two_hot.at[jnp.arange(diff.shape[0]), ind_lo]"), ("two_hot.at[jnp.arange(x.shape[0]), ind_up]", "two_hot.at[jnp.arange(two_hot.shape[0]), ind_up]")]},
+    # R2: a cap at zero never binds (log p <= 0)
+    {"id": "c18-b-ce-logprob-cap-zero", "file": _P, "find": "    target = two_hot_encoding(bins, target)\n    return -jnp.sum(target * log_pred, axis=-1)", "replace": "    target = two_hot_encoding(bins, target)\n    return -jnp.sum(target * jnp.minimum(log_pred, 0.0), axis=-1)"},
+    # R6: binary-search lookups that enclose x in every position; an empty-bin guard where the bin is never empty; a coinciding pair whose last write is 1
+    {"id": "c18-b-twohot-bisect-left", "file": _P, "edits": [("    ind_lo = jnp.argmin(diff, 1, keepdims=False)\n    ind_up = jnp.clip(ind_lo + 1, 0, bins.shape[0] - 1)\n", "    ind_lo = jnp.clip(jnp.searchsorted(bins, x, side=\"left\") - 1, 0, bins.shape[0] - 2)\n    ind_up = ind_lo + 1\n")]},
+    {"id": "c18-b-twohot-bisect-upper-first-guarded", "file": _P, "edits": [("    ind_lo = jnp.argmin(diff, 1, keepdims=False)\n    ind_up = jnp.clip(ind_lo + 1, 0, bins.shape[0] - 1)\n", "    ind_up = jnp.clip(jnp.searchsorted(bins, x), 1, bins.shape[0] - 1)\n    ind_lo = ind_up - 1\n"),
+        ("    weight = (x - lower) / (upper - lower)\n", "    gap = upper - lower\n    weight = jnp.where(gap > 0, (x - lower) / jnp.where(gap > 0, gap, 1.0), 0.0)\n")]},
+    {"id": "c18-b-twohot-bisect-right-lower-written-last", "file": _P, "edits": [("    ind_lo = jnp.argmin(diff, 1, keepdims=False)\n", "    ind_lo = jnp.clip(jnp.searchsorted(bins, x, side=\"right\") - 1, 0, len(bins) - 1)\n"),
+        ("    weight = (x - lower) / (upper - lower)\n", "    gap = upper - lower\n    weight = jnp.where(gap > 0, (x - lower) / jnp.where(gap > 0, gap, 1.0), 0.0)\n"),
+        ("    two_hot = two_hot.at[jnp.arange(x.shape[0]), ind_lo].set(1.0 - weight)\n    two_hot = two_hot.at[jnp.arange(x.shape[0]), ind_up].set(weight)\n", "    two_hot = two_hot.at[jnp.arange(x.shape[0]), ind_up].set(weight)\n    two_hot = two_hot.at[jnp.arange(x.shape[0]), ind_lo].set(1.0 - weight)\n")]},
+    # R4: the same library schedule behind a guard for transitions of fewer than two steps
+    {"id": "c18-b-schedule-optax-guarded", "file": _S, "edits": [("import jax.numpy as jnp\n", "import jax.numpy as jnp\nimport optax\n"),
+        (_SCHED_BODY, "    tail = jnp.ones(total_timesteps) * end\n    if transition_steps < 2:\n        return tail.at[:transition_steps].set(start)\n    ramp = optax.linear_schedule(init_value=start, end_value=end, transition_steps=transition_steps - 1)\n    return ramp(jnp.arange(total_timesteps))\n")]},
 ]
